@@ -298,6 +298,19 @@ def run_case(case, ctx, sdir):
                               witness)
 
 
+def restate_dtypes(normal, spec, rec=None):
+    """The foreign tool states the dtype the *specification* names, not the one the library made of it when the
+    document was built (a library that silently turns a stated '12-tuple' into 'string' must not thereby change
+    what the foreign file says).  Both trees have the same shape; a no-op when the library keeps stated dtypes."""
+    for a, b in zip(normal.get("sections", []), spec.get("sections", [])):
+        restate_dtypes(a, b, rec)
+    for a, b in zip(normal.get("properties", []), spec.get("properties", [])):
+        if b.get("dtype") is not None and a.get("dtype") != b["dtype"] and len(a.get("values") or []) == len(b.get("values") or []):
+            a["dtype"], a["values"] = b["dtype"], list(b["values"])
+            if rec is not None:
+                rec.count("foreign", "dtype restated from the specification")
+
+
 def run_foreign(case, ctx):
     """XML written to the 1.1 vocabulary by another tool loads to the document it describes."""
     from odml.tools.xmlparser import XMLReader
@@ -565,6 +578,7 @@ def run(ctx):
             except Exception:
                 normal = None
             if normal is not None:
+                restate_dtypes(normal, gen.normal_form(spec), rec)
                 run_foreign({"spec": enc(foreign_safe(normal)), "i": i}, ctx)
         if ctx.time_left() < 0:
             rec.extra["stopped_early_at_doc"] = i
